@@ -25,6 +25,8 @@ type Dial struct {
 	timedOut bool
 	conn     network.Conn
 	Started  time.Time
+	Ended    time.Time // zero while pending
+	By       string    // name of the task that dialled
 }
 
 // SimDialer is the network.Dialer handed to the hertz client: every dial is a
@@ -75,6 +77,8 @@ func (d *SimDialer) DialConnection(n, address string, timeout time.Duration, tls
 		tm.Stop()
 	}
 	s.Mu.Lock()
+	dl.Ended = time.Now()
+	dl.By = t.Name
 	d.InProgress--
 	st := dl.state
 	conn := dl.conn
